@@ -393,6 +393,51 @@ def walkList (starPref : K → K) (gt : K → K → Bool) (soft2 theta2 : K) (pt
   | c :: cs, a => walkList starPref gt soft2 theta2 pt gb cs (walk starPref gt soft2 theta2 pt gb c a)
 end
 
+/-! ### monopole data of the cells (tree.c:217-283, `reb_simulation_update_tree_gravity_data_in_cell`, non-QUADRUPOLE) -/
+
+def cellM : Cell K → K
+  | .leaf _ _ m _ => m
+  | .node _ m _ _ => m
+def cellCom : Cell K → V3 K
+  | .leaf _ _ _ c => c
+  | .node _ _ c _ => c
+
+/-- `node->mx += d->mx*d_m; …; node->m += d_m` over the non-NULL daughters, in octant order -/
+def accumKids : K → V3 K → List (Cell K) → K × V3 K
+  | m, s, [] => (m, s)
+  | m, s, d :: r =>
+    let dm := cellM d
+    let dc := cellCom d
+    accumKids (m + dm) ⟨s.x + dc.x * dm, s.y + dc.y * dm, s.z + dc.z * dm⟩ r
+
+mutual
+/-- one pass of `reb_simulation_update_tree_gravity_data_in_cell`: every leaf re-reads mass and position of
+    its particle from the particle array, every non-leaf cell gets the total mass and (if `m_tot > 0`)
+    the centre of mass of its daughters -/
+def refreshCell (gt0 : K → Bool) (ps : Array (Body K)) : Cell K → Cell K
+  | .leaf pt r m c =>
+    match ps[pt]? with
+    | some p => .leaf pt r p.m p.p
+    | none => .leaf pt r m c
+  | .node w _ _ kids =>
+    let ks := refreshCells gt0 ps kids
+    let (mt, s) := accumKids Scalar.zero V3.zero ks
+    if gt0 mt then .node w mt ⟨s.x / mt, s.y / mt, s.z / mt⟩ ks else .node w mt s ks
+def refreshCells (gt0 : K → Bool) (ps : Array (Body K)) : List (Cell K) → List (Cell K)
+  | [] => []
+  | c :: cs => refreshCell gt0 ps c :: refreshCells gt0 ps cs
+end
+
+mutual
+/-- preorder list of the monopole data (m, mx, my, mz) of all cells -/
+def cellDataList : Cell K → List (K × V3 K)
+  | .leaf _ _ m c => [(m, c)]
+  | .node _ m c kids => (m, c) :: cellDataLists kids
+def cellDataLists : List (Cell K) → List (K × V3 K)
+  | [] => []
+  | c :: cs => cellDataList c ++ cellDataLists cs
+end
+
 /-- TREE case of `reb_calculate_acceleration`: ghost boxes outermost, then particles, then roots -/
 def accTree (starPref : K → K) (gt : K → K → Bool) (soft theta2 : K) (ghosts : List (V3 K))
     (roots : List (Cell K)) (ps : Array (Body K)) : Acc K :=
